@@ -126,3 +126,34 @@ Definition tree_life (o : list bool) (ops : list tree_op) : list aevent :=
   | (None, s) => log s
   | (Some t, s) => let '(nodes, s') := tree_run [] ops s in log (tree_free t nodes s')
   end.
+
+(* ---- src/allocator.c: the default allocator (used when the caller passes NULL) forwards every entry to libc,
+   one call per request with the same arguments; aligned blocks come from posix_memalign and go back through free *)
+Inductive def_req :=
+| DMalloc (n : Z) | DCalloc (n s : Z) | DRealloc (blk : nat) (n : Z) | DFree (blk : nat)
+| DAlignedAlloc (al n : Z) | DAlignedFree (blk : nat).
+
+Inductive libc_call :=
+| LMalloc (n : Z) | LCalloc (n s : Z) | LRealloc (blk : nat) (n : Z) | LFree (blk : nat)
+| LPosixMemalign (al n : Z).
+
+Definition default_call (r : def_req) : libc_call :=
+  match r with
+  | DMalloc n => LMalloc n
+  | DCalloc n s => LCalloc n s
+  | DRealloc b n => LRealloc b n
+  | DFree b => LFree b
+  | DAlignedAlloc al n => LPosixMemalign al n
+  | DAlignedFree b => LFree b
+  end.
+
+Definition default_trace (rs : list def_req) : list libc_call := map default_call rs.
+
+(* does the request create / destroy a block (for the balance statement) *)
+Definition req_allocs (r : def_req) : bool :=
+  match r with DMalloc _ | DCalloc _ _ | DAlignedAlloc _ _ => true | _ => false end.
+Definition req_frees (r : def_req) : bool :=
+  match r with DFree _ | DAlignedFree _ => true | _ => false end.
+Definition call_allocs (c : libc_call) : bool :=
+  match c with LMalloc _ | LCalloc _ _ | LPosixMemalign _ _ => true | _ => false end.
+Definition call_frees (c : libc_call) : bool := match c with LFree _ => true | _ => false end.
